@@ -92,6 +92,11 @@ def main():
         broken.append({'what': 'proof-obligation', 'name': 'lake build ' + ' '.join(mods), 'log': llog[-3000:], 'errors': failed[:10]})
         # try to (re)build the driver alone so the search for a failing input can proceed
         C.lean_build(['aitb-driver'])
+        # audit the modules that still build, so one re-opened obligation does not hide the others' status
+        okmods = [m for m in mods if C.lean_build([m])[0]]
+        if okmods and len(mods) > 1:
+            audit = C.lean_audit(okmods, theorems + spec.get('gen_obligations', []))
+            discharged = len([t for t in audit['axioms'] if all(x in C.ALLOWED_AXIOMS for x in audit['axioms'][t])])
     lc = None
     if tier == 'thorough' and lok and not a.replay:
         lc = {}
